@@ -147,6 +147,7 @@ type c12Case struct {
 	OnePar bool     `json:"onepar"` // one duplicate-free partition per message, within the limits
 	Msgs   []c12Msg `json:"msgs,omitempty"`
 	Ops    []c12Op  `json:"ops"`
+	Retx   *c12Retx `json:"retx,omitempty"` // leg retx: the transmission schedule (zz_verif_c12_retx_test.go)
 }
 
 func c12Put24(b []byte, v int) { b[0], b[1], b[2] = byte(v>>16), byte(v>>8), byte(v) }
@@ -975,4 +976,5 @@ func TestVerifC12Buffer(t *testing.T) {
 	for i := 0; i < 600*mult; i++ {
 		out.emit(c12ManyCase(r, i, 0, 0))
 	}
+	c12RetxCases(r, emit)
 }
